@@ -4,7 +4,8 @@
 # usage: try_neutral.sh [outfile]
 OUT=${1:-/dev/stdout}
 for spec in "N1-queue-extra-lock C04 C05" "N2-sorter-insertion-for-short C09 C02" "N3-fork-delivers-last-output-first C06" \
-            "N4-parser-token-queue-of-4 C11 C12" "N5-set-linear-search C02 C15"; do
+            "N4-parser-token-queue-of-4 C11 C12" "N5-set-linear-search C02 C15" \
+            "N6-queue-with-condition-variables C04 C05 C06 C12 C17"; do
   set -- $spec; n=$1; shift
   for id in "$@"; do
     R=$(/verif/tools/try_mutant2.sh /verif/seeded/neutral/$n.diff $id | head -1)
